@@ -134,6 +134,24 @@ HARNESS = r'''
     }
     #[kani::proof]
     #[kani::unwind(4)]
+    #[kani::stub(alloc::fmt::format, crate::vx_stub_format)]
+    fn canary_state_write_ok_reachable() {
+        let _old = init_fs();
+        let (sp, tp) = paths();
+        assert!(any_state().write(&sp, &tp).is_err());     // must FAIL: a write can succeed
+    }
+    #[kani::proof]
+    #[kani::unwind(4)]
+    #[kani::stub(alloc::fmt::format, crate::vx_stub_format)]
+    fn canary_prepared_record_reachable() {
+        let _old = init_fs();
+        let (sp, tp) = paths();
+        let r = PreparedSubmission::construct_and_write(SequencerHeight(kani::any()), any_completed(), BlobTxHash(kani::any()), sp, tp);
+        assert!(r.is_err());                               // must FAIL
+        std::mem::forget(r);
+    }
+    #[kani::proof]
+    #[kani::unwind(4)]
     fn last_completed_height_contract() {
         let (sp, tp) = paths();
         let last = any_completed();
@@ -180,6 +198,8 @@ UNIT = dict(
         dict(name="state_read_validates", obligation="submission::State::read::ensures#Prepared-ahead-of-last-confirmed"),
         dict(name="prepared_construct_and_write_contract", obligation="PreparedSubmission::construct_and_write::ensures#height-beyond-confirmed+durable-before-return+last-unchanged"),
         dict(name="prepared_into_started_and_revert_contract", obligation="PreparedSubmission::into_started+revert::ensures#last-advances-only-to-in-flight-height/revert-keeps-last"),
+        dict(name="canary_state_write_ok_reachable", expect="fail"),
+        dict(name="canary_prepared_record_reachable", expect="fail"),
         dict(name="last_completed_height_contract", obligation="SubmissionStateAtStartup::last_completed_sequencer_height::ensures#confirmed-height-not-in-flight"),
     ],
     assumptions=["file system = two cells (state file, temp file); tokio::fs::write may fail, rename is atomic (POSIX) and may fail; serde_json round-trip is the identity",
